@@ -11,7 +11,6 @@ import (
 
 //verif:stub github.com/nuts-foundation/nuts-node/vcr/pe.matchCredential => hMatchCredential
 //verif:stub github.com/nuts-foundation/nuts-node/vcr/pe.vcEqual => hVCEqual
-//verif:stub github.com/nuts-foundation/nuts-node/vcr/pe.matchFormat => hMatchFormat
 
 // ---- constraint matching as a verdict matrix -----------------------------------------------------
 // Whether credential c satisfies the constraints of input descriptor d (matchCredential: jsonpath, filters,
@@ -62,21 +61,47 @@ func hMatchCredential(descriptor InputDescriptor, credential vc.VerifiableCreden
 	return false, errors.New("harness: constraint evaluation failed")
 }
 
-// hMatchFormat: whether a credential has one of the designated formats/algorithms (jws parsing, proof
-// decoding: out of scope; the real matchFormat on ldp_vc credentials: H12f) is a functional verdict per
-// (format designation, credential) as well. A designation is identified by its only key; no designation: true.
-func hMatchFormat(format *PresentationDefinitionClaimFormatDesignations, credential vc.VerifiableCredential) bool {
-	if format == nil || len(*format) == 0 {
+// Format designations: the harness designates {"ldp_vc": {"proof_type": [<name>]}} and presents JSON-LD
+// credentials with a proof, so that the real matchFormat runs and asks matchProofType (stub in H12f's file:
+// a functional verdict per (proof type, credential)). A designation is identified by its proof type name.
+func hFormatDesignation(name string) *PresentationDefinitionClaimFormatDesignations {
+	return &PresentationDefinitionClaimFormatDesignations{vc.JSONLDCredentialProofFormat: {"proof_type": {name}}}
+}
+
+func hFormatName(f *PresentationDefinitionClaimFormatDesignations) string {
+	return (*f)[vc.JSONLDCredentialProofFormat]["proof_type"][0]
+}
+
+// hFormatOK: reference side of a format designation (may draw the verdict).
+func hFormatOK(f *PresentationDefinitionClaimFormatDesignations, c vc.VerifiableCredential) bool {
+	return f == nil || hVerdict("proof-type-"+hFormatName(f), hTag(c)) == hYes
+}
+
+func hHasFormats(def PresentationDefinition) bool {
+	if def.Format != nil {
 		return true
 	}
-	for name := range *format {
-		return hVerdict("format-of-"+name, hTag(credential)) == hYes
+	for _, d := range def.InputDescriptors {
+		if d.Format != nil {
+			return true
+		}
 	}
 	return false
 }
 
-func hFormatDesignation(name string) *PresentationDefinitionClaimFormatDesignations {
-	return &PresentationDefinitionClaimFormatDesignations{name: nil}
+// hWallet: nv distinct credentials; alternating JSON-LD / JWT, or - if the definition designates formats -
+// JSON-LD credentials with a proof (matchFormat on JWT credentials parses the JWS: out of scope).
+func hWallet(def PresentationDefinition, nv int) []vc.VerifiableCredential {
+	wallet := make([]vc.VerifiableCredential, nv)
+	for i := range wallet {
+		if hHasFormats(def) {
+			wallet[i] = hCred(i, false)
+			wallet[i].Proof = []interface{}{map[string]interface{}{}}
+		} else {
+			wallet[i] = hCred(i, i%2 == 1)
+		}
+	}
+	return wallet
 }
 
 // hSatisfies: credential c is known to satisfy descriptor d of def: constraints, the definition's format
@@ -87,10 +112,8 @@ func hSatisfies(def PresentationDefinition, d *InputDescriptor, c vc.VerifiableC
 	}
 	for _, f := range []*PresentationDefinitionClaimFormatDesignations{def.Format, d.Format} {
 		if f != nil {
-			for name := range *f {
-				if v, asked := hKnownVerdict("format-of-"+name, hTag(c)); !asked || v != hYes {
-					return false
-				}
+			if v, asked := hKnownVerdict("proof-type-"+hFormatName(f), hTag(c)); !asked || v != hYes {
+				return false
 			}
 		}
 	}
@@ -393,7 +416,7 @@ func hFirstMatch(def PresentationDefinition, d string, creds []vc.VerifiableCred
 	for i, c := range creds {
 		switch hVerdict(d, hTag(c)) {
 		case hYes:
-			if hMatchFormat(def.Format, c) && hMatchFormat(desc.Format, c) {
+			if hFormatOK(def.Format, c) && hFormatOK(desc.Format, c) {
 				return i, false
 			}
 		case hEvalError:
@@ -461,10 +484,7 @@ func H12d() {
 	vTag("with_requirements")
 	withReqs := vBool()
 	def := hGenDefinition(nd, withReqs, vParam("reqs", 1), vParam("shapes", 4), vParam("nest", 2), vParam("malformed", 0))
-	wallet := make([]vc.VerifiableCredential, nv)
-	for i := range wallet {
-		wallet[i] = hCred(i, i%2 == 1)
-	}
+	wallet := hWallet(def, nv)
 	if withReqs {
 		vCover("submission-requirements")
 		for _, r := range def.SubmissionRequirements {
